@@ -1,9 +1,14 @@
 #!/bin/bash
-# usage: kill_matrix.sh <patch> -> prints which properties' quick checks report a VIOLATION with the patch applied to /repo
-P=$1
-cd /repo || exit 2
-git diff --quiet || { echo "repo dirty"; exit 2; }
-git apply "$P" 2>/dev/null || git apply --3way "$P" 2>/dev/null || { echo "NOAPPLY"; git reset -q --hard HEAD; exit 0; }
+# usage: kill_matrix.sh <patch> [props...] -> which quick checks report a VIOLATION with the patch applied.
+# Works on a scratch copy of /repo's working tree (never touches /repo, writes no evidence/reports).
+P=$(readlink -f "$1"); shift
+PROPS=${@:-all}
+D=$(mktemp -d /tmp/km-XXXXXX)
+rsync -a --exclude target --exclude .git /repo/ $D/
+cd $D
+git apply --whitespace=nowarn "$P" 2>/dev/null || patch -p1 -s -f --no-backup-if-mismatch -i "$P" >/dev/null 2>&1 || { echo "NOAPPLY"; rm -rf $D; exit 0; }
 cd /verif
-./check all quick 2>&1 | grep -E "^VIOLATION|^ENGINE|^  at " | sed -E 's/replay=.*reports\/(C[0-9]+)\/(C[0-9]+_[A-Z0-9]+)__.*/\2/' | paste - - | cut -c1-260
-git -C /repo reset -q --hard HEAD
+for p in $PROPS; do
+PEARL_REPO=$D PEARL_VERIF_SCRATCH=1 ./check $p quick 2>&1 | grep -E "^VIOLATION|^ENGINE|^  at " | sed -E 's/replay=.*reports\/(C[0-9]+)\/(C[0-9]+_[A-Za-z0-9]+)__.*/\2/' | paste - - | cut -c1-260
+done
+rm -rf $D
